@@ -51,11 +51,15 @@ type marker struct{ s string }
 // GetConfiguration hands back what was stored — the configuration a registry
 // runs its lints with is the one it was given (not one re-bound against the
 // registry's contents at the time of the call, which in Filter is still empty).
+// registryCfgField: name of registryImpl's configuration field, as found by configAccessors.
+var registryCfgField = "configuration"
+
 func configAccessors(c *Ctx, r *Report) {
 	noInline := func(*ssa.Function) bool { return false }
 	set := c.Method("lint", "registryImpl", "SetConfiguration")
 	outs, abort := Enumerate(set, SymOpts{Inline: noInline})
 	bad := abort
+	registryCfgField = "configuration" // the receiver's field that holds the configuration (whatever its name)
 	if bad == "" {
 		if len(outs) != 1 || outs[0].Kind != "return" {
 			bad = fmt.Sprintf("SetConfiguration has %d paths", len(outs))
@@ -64,8 +68,9 @@ func configAccessors(c *Ctx, r *Report) {
 			stores := 0
 			for _, ev := range outs[0].Trace {
 				switch {
-				case ev.Kind == "store" && ev.Name == "&"+recv+".configuration":
+				case ev.Kind == "store" && strings.HasPrefix(ev.Name, "&"+recv+".") && !strings.Contains(strings.TrimPrefix(ev.Name, "&"+recv+"."), "."):
 					stores++
+					registryCfgField = strings.TrimPrefix(ev.Name, "&"+recv+".")
 					if len(ev.Args) != 1 || ev.Args[0].String() != cfg {
 						bad = "SetConfiguration stores " + ev.Args[0].String() + " instead of the configuration it was given"
 					}
@@ -86,7 +91,7 @@ func configAccessors(c *Ctx, r *Report) {
 	bad = gabort
 	if bad == "" {
 		for _, o := range gouts {
-			if o.Kind != "return" || len(o.Results) != 1 || o.Results[0].String() != get.Params[0].Name()+".configuration" {
+			if o.Kind != "return" || len(o.Results) != 1 || o.Results[0].String() != get.Params[0].Name()+"."+registryCfgField {
 				bad = "GetConfiguration does not return the stored configuration on every path"
 			}
 		}
@@ -254,7 +259,7 @@ func filterChecks(c *Ctx, r *Report, selection bool) {
 									if ev.Kind == "call" && strings.HasPrefix(ev.Name, "(*lint.registryImpl).register") {
 										regs = append(regs, ev)
 									}
-									if ev.Kind == "call" && ev.Name == "(*lint.registryImpl).SetConfiguration" && len(ev.Args) == 2 && isNewRegTerm(ev.Args[0], newReg) && ev.Args[1].String() == recv+".configuration" {
+									if ev.Kind == "call" && ev.Name == "(*lint.registryImpl).SetConfiguration" && len(ev.Args) == 2 && isNewRegTerm(ev.Args[0], newReg) && ev.Args[1].String() == recv+"."+registryCfgField {
 										cfgOK = true
 									}
 									if ev.Kind == "store" || ev.Kind == "mapupdate" {
@@ -273,10 +278,10 @@ func filterChecks(c *Ctx, r *Report, selection bool) {
 									return as
 								}()...) {
 									if cand != nil && cand.Op == "obj" {
-										if v := o.Field(cand, "configuration"); v != nil && v.String() == recv+".configuration" {
+										if v := o.Field(cand, registryCfgField); v != nil && v.String() == recv+"."+registryCfgField {
 											cfgOK = true
 										}
-										if v := o.Lit["&"+strings.TrimPrefix(cand.String(), "&")+".configuration"]; v != nil && v.String() == recv+".configuration" {
+										if v := o.Lit["&"+strings.TrimPrefix(cand.String(), "&")+"."+registryCfgField]; v != nil && v.String() == recv+"."+registryCfgField {
 											cfgOK = true
 										}
 									}
